@@ -206,10 +206,25 @@ func (c *c04) Plan(seed uint64, tier string, worker, workers, idx int) *Plan {
 	p.Pool = []string{"adversarial", "adversarial", "steal", "steal", "lifo", "fifo"}[r.Intn(6)]
 	p.Sched = core.SchedSpec{Kind: []string{"random", "pct", "rtc"}[r.Intn(3)], D: r.Range(1, 3), Preempt: 30 + r.Intn(400), Horizon: 200}
 	nt := []int{1, 1, 2, 2, 3, 4}[r.Intn(6)]
+	crowd := r.Chance(1, 16)
+	if crowd {
+		// many callers at once, one or two detections each: whatever the library keeps
+		// in a bounded number (a free list of N scratch objects, N helper slots) overflows
+		nt = r.Range(9, 14)
+		p.Sched = core.SchedSpec{Kind: "random"}
+		if r.Chance(1, 2) {
+			p.Limit0 = []uint32{0, 70000, 8192}[r.Intn(3)]
+		}
+	}
 	// a small cast of inputs per run, so that the same header recurs after different histories
 	cast := make([]inputs.Input, r.Range(2, 6))
 	for i := range cast {
 		cast[i] = c04Input(r)
+	}
+	if crowd {
+		// scanner users, among them nesting around the recursion cap
+		cast[0] = inputs.Input{Fam: "json_nest", N: 100, P: nestMenu[3+r.Intn(len(nestMenu)-3)], V: r.Intn(8)}
+		cast[1] = inputs.Input{Fam: []string{"json", "json_deep", "csv_big", "ndjson"}[r.Intn(4)], N: r.Range(50, 3000), P: deepMenu[r.Intn(len(deepMenu))], V: r.Range(2, 6)}
 	}
 	// siblings: same family and size, other variant / position / filler - what a
 	// memo keyed too coarsely (by length, by the first bytes, by the buffer's
@@ -251,7 +266,11 @@ func (c *c04) Plan(seed uint64, tier string, worker, workers, idx int) *Plan {
 	for t := 0; t < nt; t++ {
 		var ops []Op
 		reuse := r.Chance(1, 3) // this caller reads every input into one buffer
-		for i, n := 0, r.Range(1, 8); i < n; i++ {
+		nops := r.Range(1, 8)
+		if crowd {
+			nops = r.Range(1, 2)
+		}
+		for i, n := 0, nops; i < n; i++ {
 			in := cast[r.Intn(len(cast))]
 			op := Op{In: &in}
 			switch e := r.Intn(20); {
@@ -279,6 +298,7 @@ func (c *c04) Plan(seed uint64, tier string, worker, workers, idx int) *Plan {
 			if r.Chance(1, 3) && slot < p.Slots {
 				slot++
 				op.Slot = slot
+				op.Early = nt > 1 && r.Chance(1, 2)
 			}
 			ops = append(ops, op)
 			if slot > 0 && r.Chance(1, 4) {
